@@ -8,6 +8,9 @@ TEST_REPLAY = "TestZZVerifC02Replay"
 TEST_TRACE = "TestZZVerifC02Trace"
 
 
+MAX_REPORTS = 25     # replay records written per direction and run
+
+
 def classify(rec):
     """Narrow keys of known findings (none for C02)."""
     return None
@@ -46,7 +49,7 @@ def run(ctx):
     nt = {c["i"] for c in cfgs if nontrivial(c)}
     sel = cfgs            # the replay costs about as much as generating: both tiers replay every vector
     confirmed, st = cm.replay_with_confirmation(ctx, TEST_REPLAY, cm.FILES02, hdr, sel, "c02")
-    for b in confirmed:
+    for b in confirmed[:MAX_REPORTS]:
         ctx.disagreement(classify(b), b, "C02: %s with upstream answer %s -- observed %s, spec admits %s (lists %s)" % (
             b["concrete"], json.dumps(b["ans"]), json.dumps(b["got"]), json.dumps(b["want"]), json.dumps(b["lists"])))
 
@@ -62,7 +65,7 @@ def run(ctx):
         rows2, bad2, _ = cm.trace_validate(ctx, TEST_TRACE, cm.FILES02, n_cfg, "c02b", only=real_ci)
         sig = lambda r: json.dumps([r["req"], r["ans"], r["obs"]], sort_keys=True)
         again = {sig(rows2[b - 1]) for b in bad2}
-        for b in bad_lines:
+        for b in bad_lines[:MAX_REPORTS]:
             rec = dict(trows[b - 1])
             if sig(rec) in again:
                 rejected += 1
@@ -71,6 +74,7 @@ def run(ctx):
                     j -= 1
                 rec["cfg"] = trows[j]["cfg"]
                 rec["lists"] = trows[j].get("lists")
+                rec["ci"], rec["seed"], rec["n_cfg"] = trows[j]["ci"], ctx.seed, n_cfg
                 ctx.disagreement(classify(rec), rec, "C02 trace: %s answer %s -- outcome %s not admitted by DnsPipeline (lists %s)" % (
                     rec.get("concrete"), json.dumps(rec["ans"]), json.dumps(rec["obs"]), json.dumps(rec["lists"])))
 
@@ -119,5 +123,4 @@ def replay(ctx, path):
                           "observed": [b["got"] for b in confirmed] or "admissible",
                           "concrete": [b["concrete"] for b in confirmed]}, indent=1))
         return 1 if confirmed else 0
-    print("trace records are replayed by re-running the check with the same VERIF_SEED")
-    return 2
+    return cm.replay_trace_record(ctx, TEST_TRACE, cm.FILES02, rec, "c02r")
